@@ -226,7 +226,7 @@ def TPk (fl : Bool) (tmpl : Term) (max : Nat) (prog : List Term) (F k : Nat) : P
   ∀ (p : Pr) (lv : Lv) (m : MS) (sig : SigG Err) (m' : MS),
     dfsP (VM.sem F) 0 k p (lv.map Prod.fst) m = some (sig, m') →
     GoodP fl F k p (lv.map Prod.fst) m →
-    ∀ (d : Nat) (ans0 : List Term) (r : SLD.Res), PSpec fl tmpl max prog lv d p m ans0 r → LvOK lv d →
+    ∀ (d : Nat) (ans0 : List Term) (r : SLD.Res), PSpecW fl tmpl max prog lv d p m ans0 r → LvOK lv d →
       StOK prog m → ans0.length < max →
       sig = .illScoped ∨ Match tmpl max prog lv ans0 m m' sig r
 
@@ -299,7 +299,7 @@ theorem body_grel {lv : Lv} {σ' : Subst} {π' : Nat → Nat} {D' : Nat → Prop
   induction h with
   | nil => exact .nil
   | cons hd _ ih =>
-    refine .cons ⟨hd.1, d, ?_, fun _ => by rw [hd.2.1]; exact hid⟩ ih
+    refine .cons ⟨hd.1, d, Or.inl ?_, fun _ => by rw [hd.2.1]; exact hid⟩ ih
     simp only [SLD.Frame.subst, applySubst_eq, hd.2.2]
 
 theorem forall2_left {α β : Type} {R : α → β → Prop} {P : α → Prop} {as : List α} {bs : List β}
@@ -316,8 +316,8 @@ theorem forall2_left {α β : Type} {R : α → β → Prop} {P : α → Prop} {
 theorem grel_ext {lv lv1 : Lv} (hext : ∀ c l, lv.lev c = some l → lv1.lev c = some l)
     {σ : Subst} {π : Nat → Nat} {D : Nat → Prop} {G : List (Term × Nat)} {R : List SLD.Frame}
     (h : GRel lv σ π D G R) : GRel lv1 σ π D G R := by
-  refine Forall2.imp h ?_
-  rintro g fr ⟨hg, l, hfr, hl⟩
+  refine h.imp ?_
+  rintro g _ fr ⟨hg, l, hfr, hl⟩
   exact ⟨hg, l, hfr, fun hc => hext _ _ (hl hc)⟩
 
 theorem cutsOK_ext {lv lv1 : Lv} (hext : ∀ c l, lv.lev c = some l → lv1.lev c = some l)
@@ -366,7 +366,7 @@ theorem after_child {k : Nat} (ihP : TPk fl tmpl max prog F k) {t : Thunk} {f q0
     (hgood : GoodA fl F (k + 1) t f (lv.map Prod.fst) m)
     (hev : (VM.sem F).evalThunk 0 t m = some (q0, m1))
     (hlv1 : lv1.map Prod.fst = push f.id (lv.map Prod.fst))
-    (hspec : PSpec fl tmpl max prog lv1 d1 q0 m1 ans0 r1) (hok1 : LvOK lv1 d1) (hst1 : StOK prog m1)
+    (hspec : PSpecW fl tmpl max prog lv1 d1 q0 m1 ans0 r1) (hok1 : LvOK lv1 d1) (hst1 : StOK prog m1)
     (hlt : ans0.length < max) (hrec : f.recover = none) :
     sig = .illScoped ∨
     (∃ m2, Match tmpl max prog lv1 ans0 m1 m2 (.exhausted none) r1 ∧
@@ -516,7 +516,7 @@ theorem alt_fail {k : Nat} (ihP : TPk fl tmpl max prog F k) {t : Thunk} {f : Pr}
     (hda : dfsAlts (VM.sem F) 0 (k + 1) t f (lv.map Prod.fst) m = some (sig, m'))
     (hgood : GoodA fl F (k + 1) t f (lv.map Prod.fst) m)
     (hev : evalThunk F t m = some (failP, bump m N')) (hN' : m.user.nextVar ≤ N')
-    (hspec : PSpec fl tmpl max prog lv d f (tick (bump m N')) m.user.answers r)
+    (hspec : PSpecW fl tmpl max prog lv d f (tick (bump m N')) m.user.answers r)
     (hok : LvOK lv d) (hst : StOK prog m) (hlt : m.user.answers.length < max) :
     sig = .illScoped ∨ Match tmpl max prog lv m.user.answers m m' sig r := by
   cases k with
@@ -542,7 +542,7 @@ theorem alt_tail {k : Nat} (ihP : TPk fl tmpl max prog F k) {t : Thunk} {f q0 : 
     (hev : evalThunk F t m = some (q0, m1))
     (hfid : f.id = id) (hfrec : f.recover = none) (hid0 : id ≠ 0) (hidn : id ∉ lv.map Prod.fst)
     (hok : LvOK lv d) (hlt : m.user.answers.length < max)
-    (hspec : PSpec fl tmpl max prog ((id, some d) :: lv) (d + 1) q0 m1 m.user.answers r1)
+    (hspec : PSpecW fl tmpl max prog ((id, some d) :: lv) (d + 1) q0 m1 m.user.answers r1)
     (hst1 : StOK prog m1) (hmm1 : m.user.nextVar ≤ m1.user.nextVar)
     (hpost : (match r1.stop with
       | .exhausted => (SLD.solveAlts false (progS prog) n' d nv as R q
@@ -571,7 +571,7 @@ theorem alt_tail {k : Nat} (ihP : TPk fl tmpl max prog F k) {t : Thunk} {f q0 : 
         rw [hnew1, List.length_append]; omega
       rw [hlim] at hr'
       rcases ihP _ _ _ _ _ hf hgf d m2.user.answers r'
-        (hrest m2 r' (Nat.le_trans hmm1 hm.nvar) hm.st hr') hok hm.st hlen with hill | hm2
+        (hrest m2 r' (Nat.le_trans hmm1 hm.nvar) hm.st hr').toW hok hm.st hlen with hill | hm2
       · exact Or.inl hill
       · right
         obtain ⟨new2, hnew2, hfa2⟩ := hm2.ans
